@@ -33,7 +33,7 @@ def shards(tier):
 def floors(tier):
     return {"trees": 5000, "error_lists": 800, "lists_all_orders": 500, "d3_required_lists": 100,
             "propertyNames_lists": 100, "duplicate_path_keyword_lists": 200, "depth3_lists": 100,
-            "nodes_checked": 20000, "error_free_lookups": 5000, "context_lists": 400, "context_lists_below_nonempty_path": 150}
+            "nodes_checked": 20000, "error_free_lookups": 5000, "context_lists": 400, "context_lists_below_nonempty_path": 150, "other_trees_used_through_setitem": 150}
 
 
 def value_at(instance, path):
@@ -178,6 +178,23 @@ def one_list(ctx, rng, d, schema, instance):
         ctx.count("duplicate_path_keyword_lists")
     if any(len(p) >= 3 for p in paths):
         ctx.count("depth3_lists")
+    if ctx.counters.get("error_lists", 0) % 4 == 0:
+        # other trees living in the same process are used through the public mapping interface first (a report tree
+        # that files whole trees under document names, a leaf that gets a child assigned): the tree built afterwards
+        # reports its own errors and nothing else
+        try:
+            report = ErrorTree()
+            report["vf-document.json"] = ErrorTree(errors)
+            other = ErrorTree(errors[:1])
+            node = other
+            for step in list(errors[0].path):
+                node = node[step]
+            node["vf-assigned-child"] = ErrorTree()
+            report["vf-second.json"] = other
+            _ = ("vf-document.json" in report, len(report), list(report))
+            ctx.count("other_trees_used_through_setitem")
+        except Exception as e:
+            ctx.violation("setitem-raised", {"draft": d, "schema": schema, "instance": instance}, "%s: %s" % (type(e).__name__, str(e)[:100]))
     for order in orders(rng, len(errors), ctx):
         case = {"draft": d, "schema": schema, "instance": instance, "order": list(order)}
         ctx.case([d, schema, instance, list(order)], nontrivial=len(errors) >= 2)
